@@ -933,6 +933,26 @@ class Engine:
                     s.events.append(('write', fsteps[-1][3], fsteps[-1][2], new, (fn['path'], t['sp']['line']),
                                      '.'.join(st_[2] for st_ in fsteps)))
             return one(UNIT)
+        m = re.match(r'core::num::<impl (u\d+|usize)>::checked_sub$', c)
+        if m and getattr(self, 'fork_checked', True):
+            # a.checked_sub(b) on unsigned integers: Some(a − b) iff a ≥ b — the same decision an explicit `a >= b` guard would record
+            a, b = self.strip(dv(0), s), self.strip(dv(1), s)
+            if is_c(a) and is_c(b):
+                return one(self.adt_val('core::option::Option', 'Some', [C(a[1] - b[1])]) if a[1] >= b[1] else self.adt_val('core::option::Option', 'None'))
+            atom = ('term', 'Ge', [a, b])
+            f = s.facts.get(key(atom))
+            outs_ = []
+            for val in (1, 0):
+                if isinstance(f, int) and f != val:
+                    continue
+                s2 = s if (val == 0 or isinstance(f, int)) else s.fork()
+                if not isinstance(f, int):
+                    s2.facts[key(atom)] = val
+                    s2.decisions.append((atom, val, (fn['path'], t['sp']['line'])))
+                outs_.append((self.adt_val('core::option::Option', 'Some', [('term', 'Sub', [a, b])]) if val else self.adt_val('core::option::Option', 'None'), s2))
+            if len(outs_) == 2:
+                self.npaths += 1
+            return outs_
         m = re.match(r'core::num::<impl (u\d+|usize)>::(saturating_sub|saturating_add|wrapping_add|wrapping_sub|checked_sub|checked_add|min|max|pow|abs_diff)$', c)
         if m:
             a, b = dv(0), dv(1) if len(args) > 1 else None
@@ -1084,21 +1104,30 @@ class Engine:
         if name in ('as_ref', 'as_mut', 'copied', 'cloned', 'as_deref'):
             return one(v)
         if name in ('map', 'and_then', 'map_err', 'ok_or', 'ok_or_else', 'or_else', 'unwrap_or_else',
-                    'map_or', 'map_or_else', 'is_some_and', 'is_ok_and', 'is_none_or', 'or'):
+                    'map_or', 'map_or_else', 'is_some_and', 'is_ok_and', 'is_none_or', 'or', 'filter', 'zip', 'xor', 'and'):
             rest = [self._deref_val(a, s) for a in args[1:]]
             cases = []
             if known:
                 cases.append((good, v[4][0] if v[4] else UNIT, s))
             else:
-                atom = ('term', 'is_some' if is_opt else 'is_ok', [v])
-                f = s.facts.get(key(atom))
+                # the same decision atom a `match` on the value records: its discriminant (Option: None = 0, Some = 1; Result: Ok = 0, Err = 1)
+                atom = ('term', 'discr', [v])
+                f0 = s.facts.get(key(atom))
+                f = None
+                if isinstance(f0, int):
+                    f = int(f0 == 1) if is_opt else int(f0 == 0)
+                elif isinstance(f0, tuple) and f0[0] == 'ne':
+                    good_d = 1 if is_opt else 0
+                    if good_d in f0[1]:
+                        f = 0
                 for val in (1, 0):
                     if isinstance(f, int) and f != val:
                         continue
                     s2 = s if (val == 0 or isinstance(f, int)) else s.fork()
                     if not isinstance(f, int):
-                        s2.facts[key(atom)] = val
-                        s2.decisions.append((atom, val, (fn['path'], t['sp']['line'])))
+                        dval = (1 if val else 0) if is_opt else (0 if val else 1)
+                        s2.facts[key(atom)] = dval
+                        s2.decisions.append((atom, dval, (fn['path'], t['sp']['line'])))
                     if isinstance(v, tuple) and v[0] == 'sym':
                         pay = ('sym', v[1] + ('#Some.0' if is_opt else ('#Ok.0' if val else '#Err.0')))
                     else:
@@ -1143,6 +1172,50 @@ class Engine:
                     out += [(wrap_good(pay), s2)] if g else [(rest[0], s2)]
                 elif name == 'or_else':
                     out += [(wrap_good(pay), s2)] if g else callf(rest[0], [] if is_opt else [pay])
+                elif name == 'filter':
+                    if not g:
+                        out += [(none, s2)]
+                    else:
+                        for (b_, s3) in callf(rest[0], [self.obj_ref(s2, pay)]):
+                            b_ = self._known(b_, s3) if not is_c(b_) else b_
+                            if is_c(b_):
+                                out.append((some(pay) if b_[1] else none, s3))
+                                continue
+                            atom_b, neg_b = self._atom(b_)
+                            fb = s3.facts.get(key(atom_b))
+                            for bv in (1, 0):
+                                eff = (1 - bv) if neg_b else bv
+                                if isinstance(fb, int) and fb != eff:
+                                    continue
+                                s4 = s3 if (bv == 0 or isinstance(fb, int)) else s3.fork()
+                                if not isinstance(fb, int):
+                                    s4.facts[key(atom_b)] = eff
+                                    s4.decisions.append((atom_b, eff, (fn['path'], t['sp']['line'])))
+                                out.append((some(pay) if bv else none, s4))
+                elif name == 'zip':
+                    o2 = rest[0]
+                    if not g:
+                        out += [(none, s2)]
+                    elif isinstance(o2, tuple) and o2[0] == 'adt':
+                        out += [(some(('tuple', [pay, o2[4][0]])) if o2[3] == 'Some' else none, s2)]
+                    else:
+                        atom2 = ('term', 'discr', [o2])
+                        f2 = s2.facts.get(key(atom2))
+                        for bv in (1, 0):
+                            if isinstance(f2, int) and f2 != bv:
+                                continue
+                            if isinstance(f2, tuple) and f2[0] == 'ne' and bv in f2[1]:
+                                continue
+                            s4 = s2 if bv == 0 else s2.fork()
+                            if not isinstance(f2, int):
+                                s4.facts[key(atom2)] = bv
+                                s4.decisions.append((atom2, bv, (fn['path'], t['sp']['line'])))
+                            p2 = ('sym', o2[1] + '#Some.0') if isinstance(o2, tuple) and o2[0] == 'sym' else ('term', 'unwrap', [o2])
+                            out.append((some(('tuple', [pay, p2])) if bv else none, s4))
+                elif name == 'and':
+                    out += [(rest[0], s2)] if g else [((none if is_opt else errv(pay)), s2)]
+                elif name == 'xor':
+                    return None
             return out or None
         return None
 
